@@ -125,7 +125,7 @@ def parse_mc(out):
 
 def mc_run(name, module, cfg, workers=6, timeout=3000, xmx="8g"):
     """Model-check one configuration; cached by specification content."""
-    key = sha(name + spec_files_key() + ENGINE_VERSION)[:16]
+    key = sha(name + module_key(module, cfg) + ENGINE_VERSION)[:16]
     path = os.path.join(CACHE, "mc-%s-%s.json" % (name, key))
     with Lock("mc-" + name):
         if os.path.exists(path):
@@ -140,6 +140,27 @@ def mc_run(name, module, cfg, workers=6, timeout=3000, xmx="8g"):
             raise ToolError("model checking %s did not pass (rc=%d):\n%s" % (name, rc, out[-3000:]))
         json.dump(r, open(path, "w"))
         return r
+
+def module_key(module, cfg):
+    """Hash of a module, its configuration and the local modules it extends (transitively)."""
+    seen = []; todo = [os.path.basename(module)]
+    while todo:
+        m = todo.pop()
+        if m in seen:
+            continue
+        p = os.path.join(SPEC, m)
+        if not os.path.exists(p):
+            continue
+        seen.append(m)
+        text = open(p).read()
+        for mm in re.findall(r"^EXTENDS\s+(.*)$", text, re.M):
+            for nm in mm.split(","):
+                todo.append(nm.strip() + ".tla")
+    h = hashlib.sha1()
+    for m in sorted(seen):
+        h.update(open(os.path.join(SPEC, m), "rb").read())
+    h.update(open(cfg, "rb").read())
+    return h.hexdigest()
 
 _spec_files_key = None
 def spec_files_key():
@@ -452,3 +473,100 @@ def conclude(prop, viols):
         path = write_replay(prop, v)
         print("VIOLATION property=%s replay=%s" % (prop, path))
     return 1
+
+# ---------------------------------------------------------------------------
+# Vector engines: TLC enumerates a bounded input space of a pure front-end function from its
+# TLA+ transcription, checks the laws on the specification, and prints (input, expected)
+# vectors; the harness replays them into the real function.
+
+def tla_unescape(s):
+    out = []; i = 0; n = len(s)
+    while i < n:
+        c = s[i]
+        if c == "\\" and i + 1 < n and s[i + 1] in ('"', "\\"):
+            out.append(s[i + 1]); i += 2
+        else:
+            out.append(c); i += 1
+    return "".join(out)
+
+def tlc_vectors(name, module, cfg, workers=4, timeout=3000, xmx="6g"):
+    """Runs TLC on a vector-emitting configuration; returns (mc stats, list of vector dicts)."""
+    rc, out, wall = run_tlc(os.path.join(SPEC, module), os.path.join(SPEC, cfg), workers=workers,
+                            timeout=timeout, xmx=xmx)
+    r = parse_mc(out)
+    r.update({"name": name, "cfg": cfg, "wall_s": round(wall, 1), "rc": rc, "cached": False})
+    if not r["ok"]:
+        raise ToolError("TLC on %s/%s did not pass (rc=%d):\n%s" % (module, cfg, rc,
+                        "\n".join(l for l in out.splitlines() if not l.startswith('<<"VEC"'))[-3000:]))
+    vecs = []
+    for line in out.splitlines():
+        if line.startswith('<<"VEC", "') and line.endswith('">>'):
+            vecs.append(json.loads(tla_unescape(line[10:-3])))
+    return r, vecs
+
+def run_vectors(kind, vecs, wdir, tag):
+    """Replays vectors; an input that makes the process abort (a non-unwinding panic such as
+    a violated unsafe precondition, a stack overflow, a signal) is located and reported as a
+    mismatch of kind 'abort', and the replay continues after it."""
+    inp = os.path.join(wdir, "%s.vec.ndjson" % tag)
+    outp = os.path.join(wdir, "%s.vec.out" % tag)
+    with open(inp, "w") as f:
+        for v in vecs:
+            f.write(json.dumps(v, separators=(",", ":")) + "\n")
+    total = {"kind": kind, "n": 0, "nbad": 0, "bad": [], "counts": {}}
+    skip = 0
+    aborts = 0
+    while True:
+        cmd = [N2V, "vec", kind, "--in", inp, "--out", outp, "--skip", str(skip),
+               "--root", "/dev/shm/n2v-vec-%d-%s" % (os.getpid(), tag)]
+        try:
+            p = subprocess.run(cmd, stdout=subprocess.PIPE, stderr=subprocess.PIPE, text=True, timeout=3000)
+        except subprocess.TimeoutExpired:
+            p = None
+        if p is not None and p.returncode == 0:
+            s = json.load(open(outp, errors="replace"))
+            total["n"] += s["n"]; total["nbad"] += s["nbad"]; total["bad"] += s["bad"]
+            for k, n in s["counts"].items():
+                total["counts"][k] = total["counts"].get(k, 0) + n
+            return total
+        if p is not None and p.returncode == 2:
+            raise ToolError("n2v vec %s failed: %s" % (kind, p.stderr[-2000:]))
+        # abort / hang: find the culprit with --mark (slower), then continue behind it
+        mark = outp + ".mark"
+        try:
+            p2 = subprocess.run(cmd + ["--mark", mark], stdout=subprocess.PIPE, stderr=subprocess.PIPE,
+                                text=True, timeout=3000)
+            rc2 = p2.returncode; err2 = p2.stderr
+        except subprocess.TimeoutExpired:
+            rc2 = -999; err2 = "timeout"
+        if rc2 == 0:
+            raise ToolError("n2v vec %s aborted but not reproducibly" % kind)
+        idx = int(open(mark).read().strip())
+        aborts += 1
+        total["n"] += idx - skip
+        total["nbad"] += 1
+        total["bad"].append({"kind": "abort" if rc2 != -999 else "timeout", "index": idx, "vector": vecs[idx - 1],
+                             "stderr": err2[-600:]})
+        skip = idx
+        if aborts >= 8:
+            return total
+
+def run_vector_engine(name, fn, tier, seed):
+    """fn(tier, seed, wdir) -> dict(mc=[...], results=[(family, summary)], viol=[...], samples=[...])"""
+    key = sha("|".join([name, tier, str(seed), repo_key(), spec_key(), ENGINE_VERSION]))[:16]
+    path = os.path.join(CACHE, "vec-%s-%s.json" % (name, key))
+    with Lock("vec-" + name):
+        if os.path.exists(path):
+            r = json.load(open(path)); r["cached"] = True
+            return r
+        t0 = time.time()
+        build_harness()
+        wdir = os.path.join(WORK, "%s-%s" % (name, key))
+        shutil.rmtree(wdir, ignore_errors=True)
+        os.makedirs(wdir)
+        r = fn(tier, seed, wdir)
+        r.update({"engine": name, "tier": tier, "seed": seed, "wall_s": round(time.time() - t0, 1),
+                  "cached": False})
+        json.dump(r, open(path, "w"))
+        shutil.rmtree(wdir, ignore_errors=True)
+        return r
